@@ -45,7 +45,7 @@ CHECKS = [
  dict(id="C02", engine="world", level="exploration", design="§4.4, §5 C02, App. A.1",
       technique="deterministic simulation: issuers, holders, an adversary and a verifier with per-party skewed clocks over simulated time; credentials travel through a Byzantine network and are validated against possibly stale ledger versions under options drawn per call; a reference validator over recorded ground truth (signing events at the JwkStorage::sign seam, published versions, revocation model, clock value) recomputes every conjunct",
       text="Seeded search over issuance histories (optional fields, status kinds, dates from the issuer clock), key rotation under the same or a new fragment, scope changes, revocation, delayed publication and stale resolution, network bit flips / truncation and adversary moves (re-sign with own key under the victim's or own kid, kid swap, splice, alg change), and validation options (nonce, scope, method-id override, explicit or clock-default bounds incl. the boundary second, three status modes, three subject-holder modes, fail-fast vs all errors). Oracle: accepted => every one of the 13 conjuncts true for the inputs actually used; a false conjunct => Err with the identifying variant (every false chained unit with AllErrors); on success the returned credential and custom claims are those signed. Evidence lists the distinct truth vectors reached.",
-      note="Soundness, error identification and fidelity are judged; completeness is not (the statement says 'accepted only if'). For bit-flipped or truncated tokens any pre-signature/signature error variant is admitted. Only Ed25519 keys (shipped JwkMemStore)."),
+      note="Soundness, error identification and fidelity are judged; completeness is not (the statement says 'accepted only if'). For bit-flipped or truncated tokens any pre-signature/signature error variant is admitted. Only Ed25519 keys (shipped JwkMemStore). Thorough tier also: a feature twin (sim-nofeat: identity_credential built with credential+validator but WITHOUT revocation-bitmap, 20000 seeded runs) in which StatusCheck::Strict has to refuse every credentialStatus."),
  dict(id="C03", engine="world", level="exploration", design="§4.4, §5 C03, App. A.2",
       technique="deterministic simulation: same multi-party world as C02 on the presentation flow (holder clock for exp/nbf, challenge nonces, kid as fragment or full id, foreign-DID methods listed in the holder document, holder key rotation, stale resolution, Byzantine network); reference validator over recorded ground truth",
       text="Seeded search over presentation histories (kid as full id / '#fragment' / bare fragment, exp/nbf relative to the holder clock, audience, custom claims, hand-crafted claims with disagreeing duplicated values / out-of-range dates / non-DID issuer), holder key rotation and relationship changes, replay to other verifiers / nonces, delivery delay against short expiry, verifier clock stepped onto the boundary second, adversary re-signing and kid swaps, wrong holder document. Oracle: accepted => signature by a key of a method of the supplied holder-document version within scope, nonce equal, iss a DID equal to the document id, date bounds hold, duplicated values agree; otherwise Err with the identifying variant; on success presentation, audience, dates and custom claims equal those signed.",
@@ -80,7 +80,7 @@ def main():
         {"name":"res","path":"sim/src/engines/res.rs","serves_properties":["C20"],"kind_free_text":"deterministic simulation of the real Resolver under a seeded executor with gated handler futures"},
       ],
       "checks": [],
-      "notes": "All checks: bin/check <ID> <quick|thorough>; replay: bin/check --replay <file>. Exit 0 held, 1 VIOLATION, 2 harness error. VERIF_SEED seeds the batch (default fixed 0x1D5EED). Genuine defects that are recorded rather than repaired are listed in known_findings.json (findings); the checks of C02, C03, C04, C14, C16 and C20 print one KNOWN-FINDING line each for them and exit 0 (12 findings: C02 1, C03 1, C04 3, C14 1, C15 1 (Stronghold tier, thorough), C16 4, C20 1 - one of the C16 lines comes from a child-process crash probe, DESIGN 11.1); the 'fixed' list of that file records the 50 fix: commits in /repo and suppresses nothing. C09 thorough also runs generate_method / purge_method over the real StrongholdStorage with failing snapshot writes (sim-stronghold c09), C15 thorough the Stronghold sequential tier and the Miri thread tier. The simulator builds identity_storage with the jpt-bbs-plus feature (BBS+ keys in the shipped store). See DESIGN.md (7.1 findings, 11 corrections, 12 seeded-change campaign: 164 confirmed changes kept under seeded/, sub-agents' reports of genuine defects under seeded/genuine/, tools/seeded_regress.sh re-evaluates them in a scratch worktree).",
+      "notes": "All checks: bin/check <ID> <quick|thorough>; replay: bin/check --replay <file>. Exit 0 held, 1 VIOLATION, 2 harness error. VERIF_SEED seeds the batch (default fixed 0x1D5EED). Genuine defects that are recorded rather than repaired are listed in known_findings.json (findings); the checks of C02, C03, C04, C14, C16 and C20 print one KNOWN-FINDING line each for them and exit 0 (12 findings: C02 1, C03 1, C04 3, C14 1, C15 1 (Stronghold tier, thorough), C16 4, C20 1 - one of the C16 lines comes from a child-process crash probe, DESIGN 11.1); the 'fixed' list of that file records the 51 fix: commits in /repo and suppresses nothing. C09 thorough also runs generate_method / purge_method over the real StrongholdStorage with failing snapshot writes (sim-stronghold c09), C15 thorough the Stronghold sequential tier and the Miri thread tier. The simulator builds identity_storage with the jpt-bbs-plus feature (BBS+ keys in the shipped store). See DESIGN.md (7.1 findings, 11 corrections, 12 seeded-change campaign: 164 confirmed changes kept under seeded/, sub-agents' reports of genuine defects under seeded/genuine/, tools/seeded_regress.sh re-evaluates them in a scratch worktree).",
       "not_applicable": [],
     }
     engines = {}
